@@ -332,3 +332,8 @@ Print Assumptions C16_refuted_lost_wakeup.
 Print Assumptions C16_waiters_conservation.
 Print Assumptions C16_waiters_shutdown_terminates.
 Print Assumptions C16_refuted_signal_wakeup.
+Print Assumptions C16_refuted_signal_wakeup_second.
+Print Assumptions C16_refuted_submit_race_lost_task.
+Print Assumptions C16_refuted_start_holds_lock.
+Print Assumptions C16_refuted_stale_signal.
+Print Assumptions C16_refuted_naive_repair.
